@@ -86,7 +86,10 @@ struct Drv {
 
     void fresh(PV& w, T* arr, unsigned c) { for (unsigned i = 0; i < c; i++) arr[i] = draw<T>(); w.assign(arr, arr + c); same(w, arr, c); }
 
-    template <int kind, unsigned c>
+    // position operand: symbolic in [0,hi] when P < 0, else the concrete P (must be <= hi)
+    template <int P> unsigned draw_pos(unsigned hi) { if constexpr (P < 0) return (unsigned)nondet_range(0, hi); if ((unsigned)P > hi) ok_bound = false; return (unsigned)P <= hi ? (unsigned)P : hi; }
+
+    template <int kind, unsigned c, int P>
     void step(PV& v)
     {
         if constexpr (kind == K_NONE) return;
@@ -97,29 +100,29 @@ struct Drv {
         if constexpr (kind == K_EMPLACE) { vals[0] = draw<T>(); v.emplace_back(vals[0]); m_insert(n, 1, vals); cap_grow(v, cap0, data0, n); }
         if constexpr (kind == K_POP) { if (n == 0) { ok_bound = false; return; } v.pop_back(); m_erase(n - 1, 1); cap_keep(v, cap0, data0); }
         if constexpr (kind == K_INS1) {
-            const unsigned pos = (unsigned)nondet_range(0, n); vals[0] = draw<T>();
+            const unsigned pos = draw_pos<P>(n); vals[0] = draw<T>();
             typename PV::iterator it = v.insert(v.begin() + pos, vals[0]);
             m_insert(pos, 1, vals);
             if ((unsigned)(it - v.begin()) != pos || *it != vals[0]) ok_ret = false;
             cap_grow(v, cap0, data0, n);
-            VWITNESS(pos == 0, "insert at the front"); VWITNESS(pos == n - 1, "insert at the back");
+            if constexpr (P < 0) { VWITNESS(pos == 0, "insert at the front"); VWITNESS(pos == n - 1, "insert at the back (n is the new size)"); }
             }
         if constexpr (kind == K_INSN) {
-            const unsigned pos = (unsigned)nondet_range(0, n); const T x = draw<T>();
+            const unsigned pos = draw_pos<P>(n); const T x = draw<T>();
             for (unsigned i = 0; i < c; i++) vals[i] = x;
             v.insert(v.begin() + pos, c, x);
             m_insert(pos, c, vals); cap_grow(v, cap0, data0, n);
             }
         if constexpr (kind == K_INSR) {
-            const unsigned pos = (unsigned)nondet_range(0, n);
+            const unsigned pos = draw_pos<P>(n);
             for (unsigned i = 0; i < c; i++) vals[i] = draw<T>();
             v.insert(v.begin() + pos, (const T*)vals, (const T*)vals + c);
             m_insert(pos, c, vals); cap_grow(v, cap0, data0, n);
-            VWITNESS(pos == n - c, "range appended");
+            if constexpr (P < 0) VWITNESS(pos == n - c, "range appended");
             }
         if constexpr (kind == K_ERASE1) {
             if (n == 0) { ok_bound = false; return; }
-            const unsigned pos = (unsigned)nondet_range(0, n - 1);
+            const unsigned pos = draw_pos<P>(n - 1);
             typename PV::iterator it = v.erase(v.begin() + pos);
             m_erase(pos, 1);
             if ((unsigned)(it - v.begin()) != pos) ok_ret = false;
@@ -127,12 +130,12 @@ struct Drv {
             }
         if constexpr (kind == K_ERASER) {
             if (n < c) { ok_bound = false; return; }
-            const unsigned pos = (unsigned)nondet_range(0, n - c);
+            const unsigned pos = draw_pos<P>(n - c);
             typename PV::iterator it = v.erase(v.begin() + pos, v.begin() + pos + c);
             m_erase(pos, c);
             if ((unsigned)(it - v.begin()) != pos) ok_ret = false;
             cap_keep(v, cap0, data0);
-            VWITNESS(pos == n, "tail range erased");
+            if constexpr (P < 0) VWITNESS(pos == n, "tail range erased");
             }
         if constexpr (kind == K_RESIZE) {
             v.resize(c);
@@ -171,7 +174,7 @@ struct Drv {
         if constexpr (kind == K_CLEAR) { v.clear(); m_erase(0, n); cap_keep(v, cap0, data0); }
         if constexpr (kind == K_SETAT) {
             if (n == 0) { ok_bound = false; return; }
-            const unsigned pos = (unsigned)nondet_range(0, n - 1); const T x = draw<T>();
+            const unsigned pos = draw_pos<P>(n - 1); const T x = draw<T>();
             v[pos] = x;
             for (int i = 0; i < CAP; i++) if ((unsigned)i == pos) a[i] = x;
             cap_keep(v, cap0, data0);
@@ -238,7 +241,7 @@ template <> struct Sel<0> { typedef prevector<4, uint32_t> PV; static constexpr 
 template <> struct Sel<1> { typedef prevector<36, uint8_t> PV; static constexpr int CAP = 64; };
 template <> struct Sel<2> { typedef prevector<8, uint16_t> PV; static constexpr int CAP = 24; };
 
-template <int PVK, int S0, int K1, int C1, int K2, int C2, int K3, int C3, int K4, int C4, int K5, int C5, int K6, int C6>
+template <int PVK, int S0, int K1, int C1, int P1, int K2, int C2, int P2, int K3, int C3, int P3, int K4, int C4, int P4, int K5, int C5, int P5, int K6, int C6, int P6>
 static void run()
 {
     typedef typename Sel<PVK>::PV PV;
@@ -250,7 +253,7 @@ static void run()
     d.n = S0;
     PV v((const T*)init, (const T*)init + S0);
     d.check(v);
-    d.template step<K1, C1>(v); d.template step<K2, C2>(v); d.template step<K3, C3>(v); d.template step<K4, C4>(v); d.template step<K5, C5>(v); d.template step<K6, C6>(v);
+    d.template step<K1, C1, P1>(v); d.template step<K2, C2, P2>(v); d.template step<K3, C3, P3>(v); d.template step<K4, C4, P4>(v); d.template step<K5, C5, P5>(v); d.template step<K6, C6, P6>(v);
     verif_observe(v.size()); verif_observe(v.capacity());
     for (int i = 0; i < Sel<PVK>::CAP; i++) if ((unsigned)i < v.size() && (unsigned)i < d.n) verif_observe((uint64_t)v[i]);
     VASSERT(d.ok_bound, "harness: the sequence stays inside the model capacity and only pops/erases existing elements");
